@@ -243,6 +243,14 @@ func writeTree(root string, files []c17file, r *rand.Rand, order []int, corrupt 
 }
 
 func c17LoadCase(c *CaseCtx) *CaseResult {
+	if c.Idx < tierN(c.Tier, 2, 16) {
+		// "no edit is ever ignored by reload": the real reload path of the binary, driven with SIGUSR1
+		bin := os.Getenv("PRUNNER_BIN")
+		if bin == "" {
+			return &CaseResult{Idx: c.Idx, Inconclusive: "PRUNNER_BIN not set (bin/check builds cmd/prunner from /repo)"}
+		}
+		return simpleCase(c, drv.RunReloadBinaryCase(c.Seed+1, bin, c.TmpDir), 1)
+	}
 	r := rand.New(rand.NewSource(c.Seed))
 	res := &CaseResult{Idx: c.Idx}
 	find := func(sig, format string, args ...any) {
